@@ -93,6 +93,26 @@ def isUuid (s : String) : Bool :=
     | some c => if i == 8 || i == 13 || i == 18 || i == 23 then c == '-' else isHex c
     | none => false
 
+mutual
+/-- inside the fragment on which the published schema provably means the same
+(C08): no `()` (finding K3), no empty enum. -/
+def Ty.wf : Ty → Bool
+  | .unit => false
+  | .enumOf vs => !vs.isEmpty
+  | .opt t => t.wf
+  | .vec t => t.wf
+  | .map t => t.wf
+  | .struct fs => fs.wf
+  | _ => true
+def Fields.wf : Fields → Bool
+  | .nil => true
+  | .cons _ ty _ rest => ty.wf && rest.wf
+end
+
+def Fields.toList : Fields → List (String × Ty × Bool)
+  | .nil => []
+  | .cons n t d rest => (n, t, d) :: rest.toList
+
 /-! ## The derived schema -/
 
 /-- `SchemaObject { instance_type: Some(t), ..Default::default() }` with the
